@@ -74,6 +74,8 @@ pub struct Ctl {
     pub n_goal: u64,
     pub n_samples_this_call: u64,
     pub n_queries_this_call: u64,
+    pub drop_push: Option<u64>,
+    pub n_push_seen: u64,
 }
 impl Default for Ctl {
     fn default() -> Self {
@@ -88,6 +90,8 @@ impl Default for Ctl {
             n_goal: 0,
             n_samples_this_call: 0,
             n_queries_this_call: 0,
+            drop_push: std::env::var("VERIF_DROP_PUSH").ok().and_then(|v| v.parse().ok()),
+            n_push_seen: 0,
         }
     }
 }
@@ -111,6 +115,14 @@ pub fn drain_hooks<S>(log: &Log<S>) {
     if !evs.is_empty() {
         let mut l = log.borrow_mut();
         for e in evs {
+            // self-test of the binding: VERIF_DROP_PUSH=n silently loses the n-th Push hook event of
+            // every run (the monitor must then reject the run: C15/snapshot)
+            if let Event::Push { parent: Some(_), .. } = &e {
+                l.ctl.n_push_seen += 1;
+                if l.ctl.drop_push == Some(l.ctl.n_push_seen) {
+                    continue;
+                }
+            }
             l.raw.push(Raw::Hook(e));
         }
     }
